@@ -67,6 +67,12 @@ CHECKS = {
         design_ref="DESIGN.md section 4 C19, appendix B.6",
         note="Trusted: Coq kernel (no axioms used), binds as the meaning of CPython binding (compared each run with real calls of def-functions of the same shape and with inspect.Signature.bind on 500/5000 random call forms), inspect.signature as reader of parameter lists (every reported pair also confirmed by really calling the substitute), enumeration via plugin_system/conversion_api of the tree under test. 63 known findings (48 signature rejections, 15 ignored/mis-bound arguments) are listed in known_findings.d/C19.json.",
         technique="Rocq proof of a finite-probe exhaustiveness lemma (exact decision procedure) evaluated by vm_compute on signatures read from the running code; counterexample replay; differential exploration JAX vs exported ONNX for argument semantics"),
+    "C07": dict(
+        category="proof",
+        text="Proof, partial (key adequacy relative to named assumptions; two refuted statements): Dedup.v proves over Graph.v's SSA semantics with uninterpreted operators that a call node evaluates exactly like its body inlined with actuals substituted (function_transparent, inline_call_sound for the whole caller graph); models the function registry of _lower_and_call as a fold over call sites (any order/length/nesting, registry hits skip the nested body, name counters) and proves: for EVERY adequate key each emitted call names a definition denoting that site's function, two calls share a definition only if they denote the same function, identifiers and keys are unique, arities match; for EVERY non-adequate key a site sequence exists where a call names a wrong definition. The FunctionKey exactly as the code builds it is proved adequate under four visible hypotheses (no hash collision, fingerprint injective on what it sees, id() unique and callee unmutated, one unmutated function per qualified name) on sites avoiding two holes, and proved NOT adequate at full strength (static kwarg whose array conversion fails; state the repr-based fingerprint does not expose) - both holes confirmed on the real exporter.",
+        design_ref="DESIGN.md section 4 C07",
+        note="Trusted: Coq kernel (all theorems closed under the global context); Graph.v semantics of a call node; hand-written abstract site descriptions of harness/c07_programs.py; onnxruntime/eager JAX/onnx.inliner. Tie: Dedup.predict (real key, registry, naming, arities) evaluated in Coq by vm_compute against the ModelProto of 61 (quick) / 735 (thorough) real exports. Property run: decorated export == decorator-stripped export == eager JAX in onnxruntime on 51 fixed programs (one differing component each) and random call sequences with random boundary placement. 5 known findings listed in known_findings.d/C07.json.",
+        technique="Rocq proof (inlining simulation under injective renaming; fold invariant of the dedup registry; key adequacy by component analysis with explicit hypotheses and refutation witnesses) + model-vs-export tie by vm_compute + differential execution decorated/plain/JAX"),
     "C12": dict(
         category="proof",
         text="Proof: for every teq-respecting function of the plain export, every subset of flagged 4-D inputs/outputs and every input, "
